@@ -21,6 +21,7 @@ func init() {
 	kinds[0x1002] = run1002
 	kinds[0x1003] = run1003
 	kinds[0x1004] = run1004
+	kinds[0x1005] = run1005
 	props["C10"] = genC10
 }
 
@@ -247,6 +248,77 @@ func realFilterWalk(view []*MNode, inc, exc []string, mt Sx, wi *walkInfo) Sx {
 	paths := withPrefixes(viewPaths(view))
 	tbl := pmatchTable(append(append([]string{}, inc...), exc...), paths)
 	return L(N(0), is, es, L(tbl...), L(calls...))
+}
+
+// kind 1005: a HISTORY of walks on ONE filterFS value (single goroutine, deterministic).
+// input: (view include-raw exclude-raw maptable history), history = (walk ...), walk = (n0 n1 ...):
+// a top-level walk; while it is running, when its callback is called for the n0-th time (0-based) a
+// NESTED walk of the same FS value is started from inside the callback and run to completion before
+// the callback returns; that walk nests again at its n1-th callback, and so on.
+// output: (#ffff) | (#0 inc exc ptable (calls ...)) with one calls list per walk STARTED, in start order.
+func run1005(in Sx) Sx {
+	defer quietStderr()()
+	return guardedC10(func() Sx {
+		view := SxView(in.L[0])
+		inc, exc, mt := sxStrings(in.L[1]), sxStrings(in.L[2]), in.L[3]
+		f, err := fsutil.NewFilterFS(&MemFS{Roots: view}, &fsutil.FilterOpt{IncludePatterns: inc, ExcludePatterns: exc, Map: mapFromTable(mt)})
+		if err != nil {
+			return L(N(0xffff))
+		}
+		var walks [][]Sx
+		bad := false
+		var do func(nest []int)
+		do = func(nest []int) {
+			idx := len(walks)
+			walks = append(walks, nil)
+			n := 0
+			err := f.Walk(context.Background(), "/", func(p string, d gofs.DirEntry, err error) error {
+				if err != nil {
+					bad = true
+					return err
+				}
+				fi, err := d.Info()
+				if err != nil {
+					bad = true
+					return err
+				}
+				st := fi.Sys().(*types.Stat)
+				if st.Path != p {
+					bad = true
+				}
+				walks[idx] = append(walks[idx], StatSx(st.CloneVT()))
+				if len(nest) > 0 && n == nest[0] {
+					do(nest[1:])
+				}
+				n++
+				return nil
+			})
+			if err != nil {
+				bad = true
+			}
+		}
+		for _, w := range in.L[4].L {
+			var nest []int
+			for _, x := range w.L {
+				nest = append(nest, x.Int())
+			}
+			do(nest)
+		}
+		if bad {
+			return L(N(0xfffc))
+		}
+		is, err1 := patsSx(inc)
+		es, err2 := patsSx(exc)
+		if err1 != nil || err2 != nil {
+			return L(N(0xfffb))
+		}
+		tbl := pmatchTable(append(append([]string{}, inc...), exc...), withPrefixes(viewPaths(view)))
+		ws := make([]Sx, len(walks))
+		for i, w := range walks {
+			ws[i] = L(w...)
+		}
+		return L(N(0), is, es, L(tbl...), L(ws...))
+	})
 }
 
 // real fsutil.NewFilterFS(MemFS(view), {include, exclude, map}).Walk(ctx, "/", fn)
@@ -856,6 +928,32 @@ func genC10(g *Gen) {
 			tag += "-unsafe-names"
 		}
 		emit1001(g, view, inc, exc, mt, tag)
+		// the same configuration as a history of walks on one FS value: re-walks and nested walks
+		if i%4 == 2 {
+			var hist []Sx
+			nested, after := false, false
+			for k := 2 + r.Intn(3); k > 0; k-- {
+				var nest []Sx
+				if r.Chance(60) {
+					for d := 1 + r.Intn(2); d > 0; d-- {
+						nest = append(nest, NI(r.Intn(6)))
+					}
+					if len(hist) > 0 {
+						after = true
+					}
+					nested = true
+				}
+				hist = append(hist, L(nest...))
+			}
+			cls := "history"
+			if nested {
+				cls += "+nested"
+			}
+			if after {
+				cls += "+after-completed-walk"
+			}
+			g.Emit(0x1005, L(ViewSx(view), stringsSx(inc), stringsSx(exc), mt, L(hist...)), after && len(inc)+len(exc) > 0, cls+":"+tag)
+		}
 
 		// list evaluation on one path of this view (and sometimes a path outside it)
 		if len(inc) > 0 && len(paths) > 0 {
